@@ -37,7 +37,7 @@ ASSUMPTIONS = ['operands are coherent tables (C05) with at least one observation
 
 MODES = ['union', 'intersection', 'bogus']
 PATTERNS = ['identical', 'permuted', 'nested', 'partial', 'disjoint']
-PROFILES = ['neither', 'self', 'others', 'all', 'random']
+PROFILES = ['neither', 'self', 'others', 'all', 'random', 'last']
 FORMS = ['single', 'list', 'tuple']
 
 
@@ -121,7 +121,7 @@ def gen_case(rng, k=None, form=None, sample=None, observation=None, profile=None
     if form is None:
         form = rng.choice(['single'] * 5 + ['list'] * 4 + ['tuple'])
     if k is None:
-        k = 1 if form == 'single' else rng.choice([0, 1, 1, 2, 2, 2, 3, 3])
+        k = 1 if form == 'single' else rng.choice([0] + [1, 1, 2, 2, 2, 3, 3] * 4)
     if form == 'single':
         k = 1
     alphabet = rng.choice(['short'] * 6 + ['long', 'punct', 'latin1', 'cjk', 'astral'])
@@ -147,8 +147,10 @@ def gen_case(rng, k=None, form=None, sample=None, observation=None, profile=None
             for a, o in enumerate(oids):
                 for b, s in enumerate(sids):
                     if o in first['oids'] and s in first['sids'] and rng.random() < 0.6:
-                        mat[a][b] = -first['mat'][first['oids'].index(o)][first['sids'].index(s)]
-        has = {'neither': False, 'self': j == 0, 'others': j > 0, 'all': True, 'random': rng.random() < 0.5}[profile]
+                        v = first['mat'][first['oids'].index(o)][first['sids'].index(s)]
+                        mat[a][b] = -v if v else 0.0
+        has = {'neither': False, 'self': j == 0, 'others': j > 0, 'all': True, 'random': rng.random() < 0.5,
+               'last': j == k and j > 0}[profile]
         if has:
             ko = rng.choice(['full', 'full', 'partial', 'partial', 'none', 'hollow'])
             ks = rng.choice(['full', 'full', 'partial', 'partial', 'none', 'hollow'])
@@ -167,7 +169,9 @@ def gen_case(rng, k=None, form=None, sample=None, observation=None, profile=None
         smf = omf = 'None'
     smf = smf or rng.choice(names)
     omf = omf or rng.choice(names)
-    mode = ['union'] * 11 + ['intersection'] * 8 + ['bogus']
+    mode = ['union'] * 4 + ['intersection'] * 3
+    if sample is None and observation is None and rng.random() < 0.02:
+        sample, observation = rng.choice([('bogus', 'union'), ('union', 'bogus'), ('intersection', 'bogus'), ('bogus', 'bogus')])
     return {'specs': specs, 'form': form, 'sample': sample or rng.choice(mode), 'observation': observation or rng.choice(mode),
             'smf': smf, 'omf': omf, 'patterns': pats, 'profile': profile}
 
@@ -184,7 +188,7 @@ def gen(rng, tier):
         for sm in MODES[:2]:
             for om in MODES[:2]:
                 for k in (1, 2, 3):
-                    for profile in ('neither', 'others', 'random'):
+                    for profile in ('neither', 'others', 'random', 'last'):
                         yield gen_case(rng, k=k, form='list', sample=sm, observation=om, profile=profile)
         for f in sorted(MDF):
             yield gen_case(rng, form='single', sample='union', observation='union', profile='all', smf=f, omf=f, opat='partial', spat='partial')
